@@ -30,6 +30,9 @@ c   == Norm(cq, 4)
 coh == ("X" :> c) @@ ("Y" :> RSub(R(1), c))
 W   == Combined(iv, coh)
 cnt == SlateCounts(iv)
+(* the name-Bradley-Terry facts are about an arbitrary weight vector: the supports themselves (the combined interval is *)
+(* just another weight vector, with larger numbers)                                                                  *)
+Wp  == [x \in Added |-> R(SupOf(x))]
 Hist == (<<"W", "C">> :> 3) @@ (<<"W", "W", "C">> :> 1) @@ (<<"W">> :> 2) @@ (<<"C", "W", "C">> :> 1) @@ (<<"C", "C", "W", "W">> :> 2)
 
 (* ---- each law is a probability law on its support ---- *)
@@ -46,11 +49,16 @@ SlateBTTypeSumsToOne == Ready => RSumSet(Arrs(cnt), LAMBDA t : SBTTypeProb(t, "X
 SlateBTSumsToOne == Ready => RSumSet(SlateBallots(iv), LAMBDA b : SlateBTProb(b, iv, "X", c)) = R(1)
 (* one candidate per slate: own first with probability cohesion, in both slate models *)
 OneEach == (Ready /\ cnt["X"] = 1 /\ cnt["Y"] = 1) => SBTTypeProb(<<"X", "Y">>, "X", c, cnt) = c /\ SPLTypeProb(<<"X", "Y">>, coh, cnt) = c
-NameBTSumsToOne == Ready => RSumSet(PermsOf(Supp(W)), LAMBDA b : NameBTProb(b, iv, coh)) = R(1)
+NameBTSumsToOne == Ready => RSumSet(PermsOf(Supp(Wp)), LAMBDA b : NameBTProbW(b, Wp)) = R(1)
 (* the integer form used for the table is the law "product over ordered pairs of x/(x+y)" of the statement *)
-NameBTFormsAgree == Ready => \A b \in PermsOf(Supp(W)) : NameBTProbW(b, W) = NameBTProbPairs(b, W)
-NameBTTwo == (Ready /\ Cardinality(Supp(W)) = 2) =>
-     \A b \in PermsOf(Supp(W)) : NameBTProbW(b, W) = RDiv(W[b[1]], RAdd(W[b[1]], W[b[2]]))
+(* (the pair form needs numbers beyond TLC's 32 bit integers for four candidates with supports above 3)    *)
+NameBTFormsAgree == (Ready /\ (Cardinality(Supp(Wp)) <= 3 \/ \A i \in DOMAIN sup : sup[i] <= 3)) =>
+                       \A b \in PermsOf(Supp(Wp)) : NameBTProbW(b, Wp) = NameBTProbPairs(b, Wp)
+NameBTTwo == (Ready /\ Cardinality(Supp(Wp)) = 2) =>
+     \A b \in PermsOf(Supp(Wp)) : NameBTProbW(b, Wp) = RDiv(Wp[b[1]], RAdd(Wp[b[1]], Wp[b[2]]))
+(* and through the combined interval the law is the same function of the weights *)
+(* (where the combined interval, scaled to integers, stays small enough for TLC's 32 bit integers) *)
+NameBTCombined == (Ready /\ \A x \in DOMAIN W : IntW(W)[x] <= 12) => \A b \in PermsOf(Supp(W)) : NameBTProb(b, iv, coh) = NameBTProbW(b, W)
 ICSumsToOne == Ready => RSumSet(PermsOf(AllCands(iv)), LAMBDA b : ICProb(b, AllCands(iv))) = R(1)
 ACSumsToOne == Ready => \A kind \in {"bloc", "cross"} : RSumSet(ACBallots(kind, iv, "X", "Y"), LAMBDA b : ACProb(b, kind, iv, "X", "Y")) = R(1)
 CambridgeSumsToOne == Ready => \A kind \in {"bloc", "cross"} :
@@ -70,8 +78,8 @@ BagLawSumsToOne == Ready =>
                         IN BagP(<<x, y>>, LAMBDA s : IndepP(s, LAMBDA i, b : SlatePLProb(b, iv, coh)))) = R(1)
 
 (* ---- the two Metropolis chains: detailed balance, hence the Bradley-Terry table is stationary; irreducible ---- *)
-NameBTChain == (Ready /\ Cardinality(Supp(W)) >= 2) =>
-  LET pi == NameBTpi(W)  K == Metropolis(pi) IN
+NameBTChain == (Ready /\ Cardinality(Supp(Wp)) >= 2) =>
+  LET pi == NameBTpi(Wp)  K == Metropolis(pi) IN
   RowsSumToOne(K) /\ DetailedBalance(K, pi) /\ Stationary(K, pi) /\ Irreducible(K, pi)
 SlateBTChain == Ready =>
   LET pi == SlateBTpi("X", c, cnt)  K == Metropolis(pi) IN
@@ -79,7 +87,7 @@ SlateBTChain == Ready =>
 (* the stationary weight is the table of the exact sampler *)
 ChainTargetsAreTheTables == Ready =>
   /\ \A t \in Arrs(cnt) : SBTTypeProb(t, "X", c, cnt) = RDiv(SlateBTpi("X", c, cnt)[t], RSumF(SlateBTpi("X", c, cnt)))
-  /\ \A b \in PermsOf(Supp(W)) : NameBTProbW(b, W) = RDiv(NameBTpi(W)[b], RSumF(NameBTpi(W)))
+  /\ \A b \in PermsOf(Supp(Wp)) : NameBTProbW(b, Wp) = RDiv(NameBTpi(Wp)[b], RSumF(NameBTpi(Wp)))
 
 (* ---- Huntington-Hill on the four voter types of a two-bloc AlternatingCrossover / Cambridge electorate ---- *)
 HHTotals == Ready => \A n \in 1..6 :
